@@ -44,14 +44,14 @@ def check_lookup(ctx, scn, ref, key, tag, I, api=None):
                       native={"kind": "meta_field", "step": step, "field": "metadata", "value": want.get("meta")})
 
 
-def history(ctx, length, first, mix_api, foreign, explicit_time=False):
+def history(ctx, length, first, mix_api, foreign, explicit_time=False, odd_keys=False):
     scn = ctx.new_scn()
     I = scn.s.I
     V = [scn.blob("V1"), scn.blob("V2")]
     scn.distinct(V[0], V[1])
-    keys = ["a", "b"]
+    keys = ["a", "b"] if not odd_keys else ["C:\\dir\\f \"x\"\n", "b"]     # keys whose JSON form needs escapes
     ref = {}
-    tag0 = "C05:%s:len%d%s%s" % (scn.api, length, ":foreign" if foreign else "", ":times" if explicit_time else "")
+    tag0 = "C05:%s:len%d%s%s%s" % (scn.api, length, ":foreign" if foreign else "", ":times" if explicit_time else "", ":odd-keys" if odd_keys else "")
     if foreign:
         # another key's record and a tombstone for it sit in key a's bucket file (hash-bucket sharing)
         bp = bucket_path_of(scn, "a")
@@ -125,6 +125,8 @@ def tasks(tier, flavours):
                 out.append(dict(module="C05", family="history", flavour=fl, params=dict(length=2, first=first, mix_api=True, foreign=False)))
         for first in ((0, 4) if tier == "quick" else range(8)):
             out.append(dict(module="C05", family="history", flavour=fl, params=dict(length=2 if tier == "quick" else 3, first=first, mix_api=False, foreign=False, explicit_time=True)))
+        for first in ((0, 5) if tier == "quick" else range(8)):
+            out.append(dict(module="C05", family="history", flavour=fl, params=dict(length=2 if tier == "quick" else 3, first=first, mix_api=(fl != "sync"), foreign=False, odd_keys=True)))
         for first in ((0, 6) if tier == "quick" else range(8)):
             out.append(dict(module="C05", family="history", flavour=fl, params=dict(length=2 if tier == "quick" else 3, first=first, mix_api=False, foreign=True)))
     return out
